@@ -1,11 +1,120 @@
-(* Props/C09.v — property theorems only (proofs in Staging/). *)
-From Coq Require Import List String Bool.
-From Mimium Require Import Tables.Combinators Staging.Model Staging.Arity.
+(* Props/C09.v — property theorems only; each closed by `exact <lemma>` (proofs in Staging/).
+
+   C09: "For every stage-1 expression, quoting it, passing it through macro-stage computation (splicing,
+   let-binding of code, function application, numeric recursion that builds code) and expanding it yields a
+   program whose output equals that of the hand-written expansion; in particular quote-then-splice of any
+   expression is the identity on its meaning, and `f!(args)` equals splicing `f(args)`.  Numbers computed at
+   the macro stage and lifted appear in the generated code with their exact value."
+
+   Vocabulary (Staging/Model.v, Staging/NF.v):
+     translate / translate_code   translate_staging.rs, with the desugar counter k threaded
+     ev n r e                     the stage-0 machine (fuel n bounds nested closure calls only); on `EBracket q` it is
+                                  the reference reading `rebuild n r q`: q itself with every escape replaced by the
+                                  code its stage-0 expression evaluates to (and float literals as the VM loads them)
+     norm0 / norm1                the normal form the encoding imposes on quoted code: parentheses dropped; missing
+                                  else / let body / then filled with unit; let annotations dropped; `_`, record and
+                                  nested tuple let-patterns flattened (fresh __dtN temporaries); qualified names
+                                  mangled; nested quote -> block; lambda return type filled with `unknown`
+     nf0 / nf1, tr0 / tr1         "is in that normal form" / "contains only translatable nodes" (no match: F18)
+     tr_val / tr_env              values with closure bodies translated; the identity on code values and numbers
+   All theorems quantify over ALL expressions, nestings, environments, counters and fuel. *)
+From Coq Require Import List String ZArith Bool.
+From Coq Require Import Floats.SpecFloat.
+From Mimium Require Import Tables.Combinators Staging.Model Staging.Ind Staging.NF Staging.Eval
+  Staging.Arity Staging.Main.
 Import ListNotations.
 Local Open Scope string_scope.
 
-(* every combinator call translate_staging.rs emits (make_apply* call sites, extracted from the source) names a
+(* T: every combinator call translate_staging.rs emits (make_apply* call sites, extracted from the source) names a
    combinator that codegen_combinators.rs registers with exactly that number of arguments -- except `code_match`
-   as long as it is not registered at all (F13) *)
+   as long as it is not registered at all (finding F18) *)
 Theorem C09_arity_agree : forallb site_agrees emitted = true.
 Proof. exact arity_agree. Qed.
+
+(* every registered combinator has its implementation in the model *)
+Theorem C09_registered_implemented : forallb implemented registered = true.
+Proof. exact registered_implemented. Qed.
+
+(* quote-then-splice: for every translatable quoted expression e (any form, any nesting, any escapes) and every
+   environment r of the macro stage, running the translation of e on the stage-0 machine yields exactly the
+   reference reading of the normal form of e *)
+Theorem C09_quote_splice_id : forall (n k : nat) (e : expr) (r : env) (c : expr),
+  tr1 e -> good_env r ->
+  rebuild n r (fst (norm1 e k)) = Ok c ->
+  ev n (tr_env r) (fst (translate_code e k)) = Ok (VCode c).
+Proof. exact quote_splice. Qed.
+
+(* ... on an expression already in normal form: the reference reading of e itself (no normalisation), and the
+   desugar counter is left alone *)
+Theorem C09_quote_splice_id_nf : forall (n k : nat) (e : expr) (r : env) (c : expr),
+  nf1 e -> good_env r ->
+  rebuild n r e = Ok c ->
+  translate_code e k = (fst (translate_code e k), k) /\
+  ev n (tr_env r) (fst (translate_code e k)) = Ok (VCode c).
+Proof. exact quote_splice_nf. Qed.
+
+(* ... and when e has no escapes and only float literals the stage-0 VM loads exactly (`stable`), the generated
+   code is e itself: quote-then-splice is the identity *)
+Theorem C09_quote_identity : forall (n k : nat) (e : expr) (r : env),
+  nf1 e -> stable e -> good_env r ->
+  ev n (tr_env r) (fst (translate_code e k)) = Ok (VCode e).
+Proof. exact quote_identity. Qed.
+
+(* whole staged programs (let-bound code, functions returning code, recursion building code ...): whenever the
+   reference semantics of the normalised program yields v, the translated program yields v on the stage-0 machine
+   (closures: with translated bodies; code values and numbers: identical) *)
+Theorem C09_expand_agrees : forall (n k : nat) (p : expr) (r : env) (v : value),
+  tr0 p -> good_env r ->
+  ev n r (fst (norm0 p k)) = Ok v ->
+  ev n (tr_env r) (fst (translate p k)) = Ok (tr_val v).
+Proof. exact expand_agrees. Qed.
+
+(* the normal form is a normal form, and normalising is the identity on normal forms *)
+Theorem C09_norm_is_normal : forall (e : expr) (k : nat), tr1 e -> nf1 (fst (norm1 e k)).
+Proof. exact (fun e k T => proj2 (Staging.NormNF.norm_nf e) T k). Qed.
+
+Theorem C09_norm_idempotent : forall (e : expr) (k : nat), nf1 e -> norm1 e k = (e, k).
+Proof. exact (fun e k N => proj2 (norm_id e) N k). Qed.
+
+(* `f!(args)` is the splice of `f(args)` *)
+Theorem C09_macroexpand_is_splice : forall (f : expr) (args : list expr),
+  convert_macroexpand (EMacroExpand f args)
+  = EEscape (EApply (convert_macroexpand f) (map convert_macroexpand args)).
+Proof. exact macroexpand_is_splice. Qed.
+
+(* lift: a number q computed at the macro stage (by any stage-0 expression s) appears as the literal q *)
+Theorem C09_lift_exact : forall (n : nat) (r : env) (s : expr) (q : num) (name : string),
+  In name ["lift_f"; "lift"; "code_lift_f"; "code_lit_f"] ->
+  lookup r name = None ->
+  ev n r s = Ok (VNum q) ->
+  ev n r (EApply (EVar name) [s]) = Ok (VCode (ELit (LFloat q))).
+Proof. exact lift_exact. Qed.
+
+(* REFUTED part (finding F19): a float LITERAL is not preserved -- the stage-0 VM loads 0.001 as the half-precision
+   immediate 0.0010004043579101562, which is what the generated code then contains *)
+Theorem C09_literal_exact_refuted :
+  exists q q' : num, imm_round q = q' /\ q' <> q /\
+    expand 1 0 (EBracket (ELit (LFloat q))) = Ok (ELit (LFloat q')).
+Proof. exact (ex_intro _ q_milli (ex_intro _ q_milli_half literal_not_exact)). Qed.
+
+(* REFUTED part (finding F18): while `code_match` is not registered, no quoted `match` can be expanded *)
+Theorem C09_match_unexpandable :
+  registered_fn registered "code_match" = None ->
+  forall (n : nat) (r : env) (s : expr) (arms : list (mpat * expr)) (k : nat),
+    lookup r "code_match" = None ->
+    ev n r (fst (translate_code (EMatch s arms) k)) = Err (Unbound "code_match") /\
+    scope0 [] (fst (translate_code (EMatch s arms) k)) = Some (Unbound "code_match").
+Proof. exact match_unexpandable. Qed.
+
+(* the hypotheses are satisfiable: a quotation in normal form with stable literals, and one with an escape *)
+Example C09_example_identity :
+  let e := ELet (PSingle "t") ty_unknown (EApply (EVar "add") [EVar "x"; ELit (LFloat float_one)])
+             (Some (EIf (EVar "t") (ELambda [("p", ty_numeric, None)] (Some ty_unknown) (EVar "p")) (Some (ETuple [])))) in
+  nf1 e /\ stable e /\ expand 1 0 (EBracket e) = Ok e.
+Proof. cbn [nf1 nf_pat stable AllP OptP is_some snd]. repeat split; try reflexivity. Qed.
+
+Example C09_example_splice :
+  let p := ELet (PSingle "c") ty_unknown (EBracket (EVar "x"))
+             (Some (EBracket (EApply (EVar "f") [EEscape (EVar "c"); EEscape (EVar "c")]))) in
+  tr0 p /\ expand 1 0 p = Ok (EApply (EVar "f") [EVar "x"; EVar "x"]).
+Proof. split; [cbn; repeat split; reflexivity | vm_compute; reflexivity]. Qed.
